@@ -4,7 +4,7 @@ import sys
 
 import common
 
-GEN = {"LogSpaceGen": "translate_utils", "StagersGen": "translate_stagers", "DepsGen": "translate_systems", "SystemsGen": "translate_bodies", "SchedulesGen": "translate_integrators", "ProtectGen": "translate_protect", "MatFieldsGen": "translate_matfields", "ProjectionGen": "translate_projection", "AdaptersGen": "translate_adapters"}
+GEN = {"LogSpaceGen": "translate_utils", "StagersGen": "translate_stagers", "DepsGen": "translate_systems", "SystemsGen": "translate_bodies", "SchedulesGen": "translate_integrators", "ProtectGen": "translate_protect", "MatFieldsGen": "translate_matfields", "ProjectionGen": "translate_projection", "AdaptersGen": "translate_adapters", "LogDetGen": "translate_logdet"}
 
 
 def main():
